@@ -80,6 +80,10 @@ fn judge_shared(c: &Case, trailing: &[u8]) -> Obs {
 
 const BUDGET: u64 = 6000;
 
+fn obs_key_bits(cmds: &[RawCmd]) -> u64 {
+    hash_of(&("plant", cmds.len(), cmds.first().map(|r| (r.a, r.b, r.c))))
+}
+
 pub fn judge_case(c: &Case) -> Obs {
     if let Some(trailing) = &c.shared {
         return judge_shared(c, trailing);
@@ -95,7 +99,19 @@ pub fn judge_case(c: &Case) -> Obs {
     if let Some(l) = proggen::fit_label(&c.spec) {
         obs.label(l);
     }
-    let rr = refvm::run(Vm::load(p.orig, &p.img.words, p.built.stack), &[], BUDGET + proggen::extra_budget(&c.spec), Some(0xFFFD));
+    // a quarter of the scripts first write a HALT over a word of the image (`move <address> xF025`):
+    // execution may reach a HALT that the loaded image does not have (the bound below is taken from
+    // the reference run of the image as the script has changed it)
+    let planted: Option<u16> = if obs_key_bits(&c.cmds) % 4 == 0 && !c.cmds.is_empty() && !p.img.words.is_empty() {
+        Some(p.orig.wrapping_add(((c.cmds[0].b as usize * p.img.words.len()) >> 16) as u16))
+    } else {
+        None
+    };
+    let mut vm0 = Vm::load(p.orig, &p.img.words, p.built.stack);
+    if let Some(a) = planted {
+        vm0.mem[a as usize] = 0xF025;
+    }
+    let rr = refvm::run(vm0, &[], BUDGET + proggen::extra_budget(&c.spec), Some(0xFFFD));
     match &rr.stop {
         RunStop::OutOfFuel => {
             obs.excluded = Some("program does not terminate within the budget");
@@ -109,6 +125,11 @@ pub fn judge_case(c: &Case) -> Obs {
     }
     let mut cmds: Vec<Cmd> = c.cmds.iter().map(|r| make_control_cmd(&p, r)).collect();
     let mut aliases: Vec<u8> = c.cmds.iter().map(|r| r.alias).collect();
+    if let Some(a) = planted {
+        cmds.insert(0, Cmd::Move(crate::refdbg::PLoc::Mem(crate::refdbg::Loc::Abs(a, 0)), 0xF025));
+        aliases.insert(0, 0);
+        obs.label("script-plants-a-halt");
+    }
     if c.crowd != 0 {
         let addrs = crowd_addrs(&p, c.crowd);
         let mut all: Vec<Cmd> = addrs.iter().map(|a| Cmd::BreakAdd(crate::refdbg::Loc::Abs(*a, 0))).collect();
@@ -214,7 +235,7 @@ impl Prop for C16 {
         "C16"
     }
     fn rule(&self) -> &'static str {
-        "ProgGen programs whose reference run stops within a known bound, with endings weighted towards computed jumps to 0xFFFF, below the origin, to >= 0xFE00 and parking on HALT x scripts of 0-11 mixed (or 4-39 step-heavy) resuming / breakpoint commands (step, step into k incl. 65535, step out, continue, break add/remove) ended by end of input, `exit` or `quit`; an eighth of the scripts begin with a crowd of 15..257 `break add`s on consecutive words and end with up to 40 `continue`s among which members of the crowd are removed. \
+        "ProgGen programs whose reference run stops within a known bound, with endings weighted towards computed jumps to 0xFFFF, below the origin, to >= 0xFE00 and parking on HALT x scripts of 0-11 mixed (or 4-39 step-heavy) resuming / breakpoint commands (step, step into k incl. 65535, step out, continue, break add/remove) ended by end of input, `exit` or `quit`; a quarter of the scripts first write a HALT over a word of the code; an eighth of the scripts begin with a crowd of 15..257 `break add`s on consecutive words and end with up to 40 `continue`s among which members of the crowd are removed. \
          Oracle (the statement's own bound, decided by deterministic fuel, never a timer; a session that burns 20 s of its thread's CPU time without one iteration of either hooked loop - hook H7 - is reported as spinning): with ticks = iterations of the run loop (hook H3), execs = executed instructions (H4), cmds = commands + 1: with inner = iterations of the debugger's own loop (H6), which shares the fuel: the session returns before 8*(bound + cmds) + 64 iterations in total, ticks <= 2*(execs + cmds) + 4 and inner <= 3*(execs + cmds) + 6. \
          Plus, through the real binary: programs that read input here and there, with a script of control commands on standard input followed by bytes that are program input (debugger and program share the stream, `;` or newline separated): the process must end; the verdict 'blocked for good' is read from the process state (its only thread waits in the futex system call, no CPU time used, four samples 0.4 s apart), never from a time limit. Non-trivial: the session reaches a PC outside user space or parks on HALT and issues >= 1 resuming command. Distinct = hash(source, script)."
     }
